@@ -333,7 +333,7 @@ read_info(const char *filename, options_t *options)
 
     /* cycle until end of file reached */
     while (1) {
-        count = fscanf(fp, "%s", stype);
+        count = fscanf(fp, "%9s", stype); /* stype holds 9 characters and the NUL */
         if (count != 1)
             break;
 
@@ -357,6 +357,10 @@ read_info(const char *filename, options_t *options)
                 count = fscanf(fp, "%c", &c);
                 if (count != 1)
                     goto out;
+                if (i >= (int)sizeof(info)) {
+                    printf("Option too long in %s", filename);
+                    goto out;
+                }
                 info[i] = c;
                 i++;
             }
@@ -385,6 +389,10 @@ read_info(const char *filename, options_t *options)
                 count = fscanf(fp, "%c", &c);
                 if (count != 1)
                     goto out;
+                if (i >= (int)sizeof(info)) {
+                    printf("Option too long in %s", filename);
+                    goto out;
+                }
                 info[i] = c;
                 i++;
             }
